@@ -511,6 +511,8 @@ func check(id, tier string, keep bool, runsOverride, secsOverride int64) int {
 	outcomes := map[string]int64{}
 	sigCounts := map[string]int64{}
 	inter := map[string]struct{}{}
+	preemptSites := map[int64]struct{}{}
+	var focusSites, yieldSites int64
 	var samples []any
 	var components any
 	detHashes := map[string]map[string]bool{}
@@ -554,6 +556,15 @@ func check(id, tier string, keep bool, runsOverride, secsOverride int64) int {
 				inter[fmt.Sprint(v)] = struct{}{}
 			}
 		}
+		if ps, ok := s["preempt_sites"].([]any); ok {
+			for _, v := range ps {
+				if n, ok := v.(json.Number); ok {
+					x, _ := n.Int64()
+					preemptSites[x] = struct{}{}
+				}
+			}
+		}
+		focusSites, yieldSites = num(s, "focus_sites_total"), num(s, "yield_sites_total")
 		if ss, ok := s["samples"].([]any); ok && len(samples) < 3 {
 			for _, x := range ss {
 				if len(samples) < 3 {
@@ -672,15 +683,18 @@ func check(id, tier string, keep bool, runsOverride, secsOverride int64) int {
 		"context_switches":           agg["switches"],
 		"preemptions_in_focus_files": agg["focus_preemptions"],
 		"simulated_time_s":           float64(agg["sim_time_ns"]) / 1e9,
-		"run_outcomes":               outcomes,
-		"fault_kinds_fired":          faults,
-		"probes":                     probes,
-		"map_order_calls":            agg["map_calls"],
-		"map_order_permuted":         agg["map_permuted"],
-		"inconclusive":               agg["inconclusive"],
-		"discarded_cases":            agg["discarded"],
-		"signature_counts":           sigCounts,
-		"known_findings_seen":        knownSeen,
+		"yield_sites_total":          yieldSites,
+		"yield_sites_in_focus_files": focusSites,
+		"distinct_yield_sites_where_a_task_was_preempted": len(preemptSites),
+		"run_outcomes":        outcomes,
+		"fault_kinds_fired":   faults,
+		"probes":              probes,
+		"map_order_calls":     agg["map_calls"],
+		"map_order_permuted":  agg["map_permuted"],
+		"inconclusive":        agg["inconclusive"],
+		"discarded_cases":     agg["discarded"],
+		"signature_counts":    sigCounts,
+		"known_findings_seen": knownSeen,
 		"determinism_selftest": map[string]any{"runs_compared": detChecked, "processes": 3, "gomaxprocs": detProcs, "mismatches": detBad,
 			"in_process_repeats_mismatch": agg["self_check_mismatch"]},
 		"components":      components,
